@@ -45,7 +45,7 @@ ASSUMPTIONS = ["observables are returned arrays, frame attributes, RAW file byte
                "programs never rely on OS entropy: an unseeded draw that changes an observable is reported with its call site"]
 PROBES = ["twin_frame_compared", "twin_raw_compared", "history_compared", "reuse_compared", "user_dict_compared",
           "copy_of_load_fil", "copy_of_sizes", "record_default_header", "record_shared_header", "aborted_recording_in_history",
-          "array_then_single", "from_data_seeded_estimate", "copy_of_load_h5", "copy_of_derived"]
+          "array_then_single", "from_data_seeded_estimate", "copy_of_load_h5", "copy_of_derived", "hashseed_program_compared"]
 
 SEAM_KEYS = {"clock": ["clock_origin", "clock_jitter_seed"], "entropy": ["entropy_salt"], "listing": ["listing"], "scratch": ["scratch"]}
 
@@ -156,7 +156,7 @@ def gen_raw_setup(rng, tier, array=None):
     return ant, el, be
 
 
-def gen_raw_program(rng, tier, ids_from=0, stem_prefix="r", with_fault=False, from_data=True, array=None):
+def gen_raw_program(rng, tier, ids_from=0, stem_prefix="r", with_fault=False, from_data=True, array=None, p_from_data=0.4):
     prog = []
     ant, el, be = gen_raw_setup(rng, tier, array)
     bid = ids_from
@@ -171,7 +171,7 @@ def gen_raw_program(rng, tier, ids_from=0, stem_prefix="r", with_fault=False, fr
         if with_fault and rng.random() < 0.4:
             op["fault"] = rng.choice([{"kind": "enospc", "at": rng.randint(1, 30)}, {"kind": "source", "at": rng.randint(1, 3)}])
         prog.append(op)
-    if from_data and rng.random() < 0.4:
+    if from_data and rng.random() < p_from_data:
         # inject onto the first recording with a seeded channelised-noise estimate
         first = [o for o in prog if o["op"] == "r_record" and not o.get("fault")]
         if first:
@@ -181,7 +181,7 @@ def gen_raw_program(rng, tier, ids_from=0, stem_prefix="r", with_fault=False, fr
                          "num_subblocks": rng.randint(1, be["W"] + 2), "listing": rng.choice(["sorted", "reverse", 7])})
             prog.append({"op": "r_estimate", "id": bid + 1, "seed": rng.randrange(1 << 30), "factor": rng.choice([50, 200])})
             prog.append({"op": "r_record", "id": bid + 1, "stem": "%sinj%d" % (stem_prefix, bid), "num_blocks": rng.choice([1, 2, 9]),
-                         "header": {"kind": "user", "cards": {}}, "digitize": rng.random() < 0.6})
+                         "header": {"kind": "user", "cards": {}}, "digitize": rng.random() < 0.6, "template": rng.random() < 0.5})
     return prog, (ant, el, be)
 
 
@@ -261,8 +261,85 @@ def generate(rng, tier):
     return sc
 
 
+def enumerated(tier):
+    """Hash-seed experiment: batches of programs executed here (forked, PYTHONHASHSEED of this interpreter) and in ONE fresh
+    interpreter started under another PYTHONHASHSEED.  Process-global hash randomisation is exactly the kind of hidden
+    input "two runs that build the same objects with the same seeds" must not depend on; forked children share it, so
+    only a separately started interpreter can vary it.  One interpreter start (about 5 s) is amortised over a batch."""
+    import random
+    out = []
+    nb, per = (2, 10) if tier == "quick" else (6, 24)
+    for b in range(nb):
+        rng = random.Random(7700 + b)
+        programs = []
+        for k in range(per):
+            r = rng.random()
+            if r < 0.55:
+                pr, _ = gen_raw_program(rng, tier, stem_prefix="e%d_" % k, p_from_data=0.9, array=rng.random() < 0.4)
+            elif r < 0.9:
+                pr = gen_frame_program(rng, n_ops=rng.randint(3, 8))
+            else:
+                pr, _ = gen_raw_program(rng, tier, stem_prefix="e%d_" % k, from_data=False)
+            programs.append(pr)
+        out.append({"mode": "hashseed", "hashseed": 101 + 977 * b, "programs": programs, "ops": [], "fixed_ops": True,
+                    "seams": {"clock_origin": 1.7e9, "clock_jitter_seed": 5 + b, "entropy_salt": 11 + b, "scratch": "c12h", "listing": "sorted"}})
+    return out
+
+
+def run_batch_fresh_interpreter(programs, seams, hashseed):
+    """Execute the programs in a separately started interpreter; returns their event lists."""
+    import os
+    import subprocess
+    import sys
+    import tempfile
+    base = "/dev/shm" if os.path.isdir("/dev/shm") else tempfile.gettempdir()
+    fd, path = tempfile.mkstemp(prefix="vf-c12batch-", suffix=".json", dir=base)
+    try:
+        with os.fdopen(fd, "w") as f:
+            json.dump({"programs": programs, "seams": seams}, f)
+        env = dict(os.environ, PYTHONHASHSEED=str(hashseed), _VERIF_REEXEC="1")
+        here = os.path.dirname(os.path.dirname(os.path.dirname(os.path.abspath(__file__))))
+        p = subprocess.run([sys.executable, "-W", "ignore", os.path.join(here, "run_check.py"), "--c12-batch", path], env=env,
+                           capture_output=True, text=True, timeout=900)
+        line = [l for l in p.stdout.splitlines() if l.startswith("C12BATCH ")]
+        if not line:
+            raise RuntimeError("fresh interpreter produced no result: " + (p.stderr or p.stdout)[-1500:])
+        return json.loads(line[-1][9:])
+    finally:
+        try:
+            os.remove(path)
+        except OSError:
+            pass
+
+
+def batch_main(path):
+    """Entry used by the fresh interpreter (run_check.py --c12-batch <file>)."""
+    with open(path) as f:
+        doc = json.load(f)
+    out = []
+    for pr in doc["programs"]:
+        res = pool.run_child(C12prog, {"program": pr, "seams": dict(doc["seams"]), "return_events": True})
+        out.append({"events": res.get("events"), "violations": res.get("violations", []), "harness_error": res.get("harness_error")})
+    print("C12BATCH " + json.dumps(out), flush=True)
+    return 0
+
+
 def simplify(sc):
     # programs shrink through the generic op removal; here: simpler headers, fewer blocks, no faults, plain seams
+    if sc["mode"] == "hashseed":
+        if len(sc["programs"]) > 1:
+            for i in range(len(sc["programs"])):
+                c = copy.deepcopy(sc)
+                c["programs"] = [sc["programs"][i]]
+                yield c
+        else:
+            pr = sc["programs"][0]
+            for i in range(len(pr)):
+                c = copy.deepcopy(sc)
+                del c["programs"][0][i]
+                if c["programs"][0]:
+                    yield c
+        return
     if sc.get("fixed_ops"):
         # paired experiments: only changes applied to both executions alike
         recs = [j for j, o in enumerate(sc["ops"]) if o["op"] == "r_record"]
@@ -338,6 +415,29 @@ def _sub_violations(ctx, res):
 
 def execute(sc, ctx):
     mode = sc["mode"]
+    if mode == "hashseed":
+        import os
+        here_seed = os.environ.get("PYTHONHASHSEED", "random")
+        local = [_run(pr, sc["seams"], ctx) for pr in sc["programs"]]
+        for r in local:
+            if _sub_violations(ctx, r):
+                return
+        fresh = run_batch_fresh_interpreter(sc["programs"], sc["seams"], sc["hashseed"])
+        ctx.fired("fresh_interpreter_other_hash_seed")
+        ctx.nontrivial = True
+        for k, (a, b) in enumerate(zip(local, fresh)):
+            if b.get("harness_error"):
+                raise RuntimeError("fresh interpreter sub-child failed: " + b["harness_error"])
+            ctx.hit("hashseed_program_compared")
+            d = _first_diff(a["events"], b["events"])
+            ctx.event("hashseed", a["digest"])
+            if d is not None:
+                ctx.violation("hashseed", "C12/twin/%s/depends_on_hash_seed" % d[1],
+                              "program %d: event %d (%s) differs between this interpreter (PYTHONHASHSEED=%s) and a fresh one "
+                              "(PYTHONHASHSEED=%s) executing the same seeded program under the same seams" % (k, d[0], d[1], here_seed, sc["hashseed"]))
+                return
+        ctx.fingerprint = ["hashseed", len(sc["programs"]), sc["hashseed"]]
+        return
     if mode in ("twin_frame", "twin_raw"):
         a = _run(sc["ops"], sc["seams"], ctx)
         if _sub_violations(ctx, a):
